@@ -42,7 +42,7 @@ Section Run.
     md <> MGlobal -> lo = None \/ hi = None ->
     run' (mkIn md cf raw_g raw_l lab0) get_threshold_prog lo hi = None.
   Proof.
-    intros Hmd H. destruct md; try congruence; destruct lo, hi; try reflexivity; destruct H; discriminate.
+    intros Hmd H. destruct md; try congruence; destruct lab0, lo, hi; try reflexivity; destruct H; discriminate.
   Qed.
 
   Lemma run_global_component inp lo hi l v :
@@ -206,8 +206,8 @@ Qed.
 (* ------------------------------------------------------------------ constants and access shapes *)
 
 Lemma band_consts_lemma :
-  get_threshold_consts = [("0.7"%string, band_lo); ("1.5"%string, band_hi); ("1.0"%string, sentinel_value)] /\
-  stmt_consts get_threshold_prog = map snd get_threshold_consts.
+  get_threshold_consts = [("1.5"%string, band_hi); ("0.7"%string, band_lo); ("1.0"%string, sentinel_value)] /\
+  prog_consts get_threshold_prog = map snd get_threshold_consts.
 Proof. split; reflexivity. Qed.
 
 Definition expected_functions : list string :=
